@@ -143,6 +143,8 @@ func c13(r *mon.Run) {
 			sawFail, failThenOK, repeated := false, false, false
 			seen := map[int]bool{}
 			var trace []string
+			var keptResults []interface{}
+			var keptSnaps []string
 			for k, di := range seq {
 				doc := pool[di]
 				t.Eval()
@@ -172,6 +174,19 @@ func c13(r *mon.Run) {
 					r.Violate(&mon.Violation{Workload: "search-histories", Index: i, API: "(*JMESPath).Search", Expr: expr, Doc: doc, Expected: "compiled AST unchanged: " + ast0, Observed: ast,
 						Detail: fmt.Sprintf("after call %d of history %v", k+1, seq), Class: "compiled AST modified by a call"})
 					return
+				}
+				if oc.Err == nil && len(keptResults) < 12 {
+					keptResults = append(keptResults, oc.V)
+					keptSnaps = append(keptSnaps, mon.Snapshot(oc.V))
+				}
+				// what earlier calls returned is the caller's: later calls do not change it
+				for q, kv := range keptResults {
+					if now := mon.Snapshot(kv); now != keptSnaps[q] {
+						r.Violate(&mon.Violation{Workload: "search-histories", Index: i, API: "(*JMESPath).Search", Expr: expr, Doc: doc,
+							Expected: "the value an earlier call returned stays what it was: " + clipStr(keptSnaps[q], 400), Observed: clipStr(now, 400),
+							Detail: fmt.Sprintf("after call %d of history %v", k+1, seq[:k+1]), Class: "earlier result changed by a later call"})
+						return
+					}
 				}
 				if oc.Err != nil {
 					sawFail = true
